@@ -205,7 +205,7 @@ func planesOfLanes(lanes [][]int8) (l, h [243]uint) {
 }
 
 func (g *G) bigBelow(n *big.Int) *big.Int {
-	b := g.r.bytes((n.BitLen() + 7) / 8 + 2)
+	b := g.r.bytes((n.BitLen()+7)/8 + 2)
 	x := new(big.Int).SetBytes(b)
 	return x.Mod(x, n)
 }
